@@ -91,6 +91,10 @@ PROPS_ALL["C11"] = cache_prop(
     "C11", "Coq proof (ownership = node/entry bijection of the inductive invariant; freed-node access is an error) + drop-counting lock-step + live-object oracle",
     "The models make ownership explicit (a node is live iff member of a deque; entries own their nodes). Theorem for all histories of the single-threaded cache: every node belongs to exactly one resident entry, so the objects referenced by the cache are exactly the resident entries' (as many live key/value objects as residents after every operation). The harness uses drop-counting key/value types and compares live counts with the model after every step and after dropping the cache with ops queued. PARTIAL: sync half pending the SInv proofs (decided by correspondence + oracle meanwhile); that Rc/Arc/Box drop exactly once is Rust's guarantee (trusted)." + TIE)
 
+PROPS_ALL["C17"] = dict(cache_prop(
+    "C17", "Coq proof (builder/policy model: computation + case analysis) + builder sweep and differential histories against the implementation",
+    "Theorems on the builder model for ALL knob combinations: policy() reports exactly max_capacity/time_to_live/time_to_idle; build panics iff ttl or tti exceeds 1000 years (constant regenerated from builder_utils.rs), new(n) = builder().max_capacity(n).build(), initial_capacity never reaches the running configuration, no weigher => weight 1, no max_capacity => nothing to evict and every new key has room. Tie: every run sweeps both real builders over capacities 0..u64::MAX, boundary durations (1000y, 1000y+1ns), weigher and initial_capacity against the extracted builder model, runs new(n) against the builder on hash-independent histories, and runs random histories with/without initial_capacity (identical traces required)."), module="p_config")
+
 # Only properties whose whole pipeline is in place are claimed in MANIFEST.json.
-CLAIMED = ["C14", "C01", "C05", "C06", "C07", "C16", "C08", "C10", "C11"]
+CLAIMED = ["C14", "C01", "C05", "C06", "C07", "C16", "C08", "C10", "C11", "C17"]
 PROPS = {k: v for k, v in PROPS_ALL.items() if k in CLAIMED}
